@@ -3,6 +3,7 @@ mod build;
 mod deep;
 mod errs;
 mod gen;
+mod inputs;
 mod insp;
 mod reccell;
 mod replay;
@@ -171,6 +172,24 @@ fn real_main(cmd: String, args: Vec<String>) -> i32 {
                 0
             } else {
                 1
+            }
+        }
+        "inputs" => {
+            // cvh inputs --file <TLC log with INPUTS lines>: call sequences of spec/Inputs.tla on real Stream / IoInput values
+            let file = arg(&args, "--file").expect("--file");
+            match inputs::replay_file(&file) {
+                Ok(st) => {
+                    println!("{}", json!({"sequences": st.sequences, "runs": st.runs, "calls": st.calls, "n_mismatch": st.n_mismatch, "mismatches": st.mismatches}));
+                    if st.n_mismatch > 0 {
+                        1
+                    } else {
+                        0
+                    }
+                }
+                Err(e) => {
+                    eprintln!("inputs error: {e}");
+                    2
+                }
             }
         }
         "reccell" => {
